@@ -4,11 +4,19 @@
 //!   D  Document::new_plain_english(..).get_tokens()          vs document_plain
 //!   T  Document::new_from_vec with a parser that returns a GIVEN token vector (also ill-formed ones:
 //!      adjacent Space/Newline runs, zero-width, overlapping, out of bounds, start > end)  vs document_passes
+//!   I  IsolateEnglish::parse over a parser returning a GIVEN token vector      vs C02Wrappers.isolate_english
+//!   C  CollapseIdentifiers::parse over a parser returning a GIVEN token vector vs C02Wrappers.collapse_identifiers
+//!   J  Document::new(text, IsolateEnglish(PlainEnglish))                       vs document_plain_ie
+//!   K  Document::new(text, CollapseIdentifiers(PlainEnglish))                  vs document_plain_ci
+//!      (the dictionary of the model = the contains_word queries the real dictionary answered `true` to,
+//!       recorded by a delegating wrapper `RecDict`)
 //!   U  the Unicode predicates the model is instantiated with are dumped from Rust's char methods
 //!      (is_english_lingual is private: it is observed through PlainEnglish.parse on one-character texts)
 //! Oracle (failing-input search): tiling of the plain pipeline, the four invariants on every front-end,
 //! the lexical shape of every kind.  Monitors: the Unicode laws the proofs assume.
-use harper_core::parsers::{Parser, PlainEnglish};
+use harper_core::parsers::{CollapseIdentifiers, IsolateEnglish, Parser, PlainEnglish};
+use harper_core::spell::FuzzyMatchResult;
+use harper_core::{Dictionary, MergedDictionary, MutableDictionary, WordId, WordMetadata};
 use harper_core::{Document, FstDictionary, Lrc, Number, NumberSuffix, Punctuation, Quote, Span, Token, TokenKind};
 use hv::common::*;
 use hv::frontends;
@@ -573,6 +581,298 @@ fn case_frontend(rep: &mut Report, fe: &str, text: &str, dict: &Arc<FstDictionar
     }
 }
 
+
+// ---------------------------------------------------------------- wrapper parsers (I, C, J, K)
+/// delegates to a real dictionary and records the `contains_word` queries answered `true`
+struct RecDict {
+    inner: Arc<dyn Dictionary>,
+    yes: std::sync::Mutex<std::collections::BTreeSet<Vec<char>>>,
+    queries: std::sync::atomic::AtomicU64,
+}
+impl RecDict {
+    fn new(inner: Arc<dyn Dictionary>) -> Arc<Self> {
+        Arc::new(RecDict { inner, yes: Default::default(), queries: Default::default() })
+    }
+    fn known_line(&self) -> String {
+        let y = self.yes.lock().unwrap();
+        y.iter().map(|w| if w.is_empty() { "e".to_string() } else { cps(w) }).collect::<Vec<_>>().join(" ; ")
+    }
+}
+impl Dictionary for RecDict {
+    fn contains_word(&self, word: &[char]) -> bool {
+        self.queries.fetch_add(1, std::sync::atomic::Ordering::Relaxed);
+        let r = self.inner.contains_word(word);
+        if r {
+            self.yes.lock().unwrap().insert(word.to_vec());
+        }
+        r
+    }
+    fn contains_word_str(&self, word: &str) -> bool {
+        let w: Vec<char> = word.chars().collect();
+        self.contains_word(&w)
+    }
+    fn contains_exact_word(&self, word: &[char]) -> bool {
+        self.inner.contains_exact_word(word)
+    }
+    fn contains_exact_word_str(&self, word: &str) -> bool {
+        self.inner.contains_exact_word_str(word)
+    }
+    fn fuzzy_match(&self, word: &[char], max_distance: u8, max_results: usize) -> Vec<FuzzyMatchResult<'_>> {
+        self.inner.fuzzy_match(word, max_distance, max_results)
+    }
+    fn fuzzy_match_str(&self, word: &str, max_distance: u8, max_results: usize) -> Vec<FuzzyMatchResult<'_>> {
+        self.inner.fuzzy_match_str(word, max_distance, max_results)
+    }
+    fn get_correct_capitalization_of(&self, word: &[char]) -> Option<&'_ [char]> {
+        self.inner.get_correct_capitalization_of(word)
+    }
+    fn get_word_metadata(&self, word: &[char]) -> Option<&WordMetadata> {
+        self.inner.get_word_metadata(word)
+    }
+    fn get_word_metadata_str(&self, word: &str) -> Option<&WordMetadata> {
+        self.inner.get_word_metadata_str(word)
+    }
+    fn words_iter(&self) -> Box<dyn Iterator<Item = &'_ [char]> + Send + '_> {
+        self.inner.words_iter()
+    }
+    fn word_count(&self) -> usize {
+        self.inner.word_count()
+    }
+    fn get_word_from_id(&self, id: &WordId) -> Option<&[char]> {
+        self.inner.get_word_from_id(id)
+    }
+}
+
+/// the curated dictionary plus the given extra words (identifiers)
+fn dict_with(dict: &Arc<FstDictionary>, extra: &[String]) -> Arc<dyn Dictionary> {
+    if extra.is_empty() {
+        return dict.clone();
+    }
+    let mut m = MutableDictionary::new();
+    for w in extra {
+        m.append_word_str(w, WordMetadata::default());
+    }
+    let mut merged = MergedDictionary::new();
+    merged.add_dictionary(dict.clone());
+    merged.add_dictionary(Arc::new(m));
+    Arc::new(merged)
+}
+
+fn tok_key(t: &Token) -> String {
+    format!("{},{},{}", t.span.start, t.span.end, kind_str(&t.kind))
+}
+fn is_subsequence(out: &[Token], inner: &[Token]) -> bool {
+    let mut i = 0;
+    for t in out {
+        while i < inner.len() && tok_key(&inner[i]) != tok_key(t) {
+            i += 1;
+        }
+        if i == inner.len() {
+            return false;
+        }
+        i += 1;
+    }
+    true
+}
+/// quote twins of a token vector (QuotesOk)
+fn twin_failures(toks: &[Token]) -> Vec<String> {
+    let mut out = vec![];
+    for (i, t) in toks.iter().enumerate() {
+        if let TokenKind::Punctuation(Punctuation::Quote(Quote { twin_loc: Some(j) })) = &t.kind {
+            let ok = *j != i && *j < toks.len() && matches!(&toks[*j].kind, TokenKind::Punctuation(Punctuation::Quote(Quote { twin_loc: Some(k) })) if *k == i);
+            if !ok {
+                out.push(format!("quote token {i} points at {j}, which is not a quote pointing back"));
+            }
+        }
+    }
+    out
+}
+
+/// I / C: the wrapper over a parser that returns a given token vector
+fn case_wrapper(rep: &mut Report, which: char, text: &str, ft: &[FTok], extra: &[String], dict: &Arc<FstDictionary>, origin: &str) {
+    let Some(toks): Option<Vec<Token>> = ft.iter().map(ftok_to_token).collect() else { return };
+    rep.eval();
+    let src: Vec<char> = text.chars().collect();
+    let rec = RecDict::new(dict_with(dict, extra));
+    let out = guarded(|| {
+        if which == 'I' {
+            IsolateEnglish::new(Box::new(Fake(toks.clone())), rec.clone()).parse(&src)
+        } else {
+            let d: Arc<dyn Dictionary> = rec.clone();
+            CollapseIdentifiers::new(Box::new(Fake(toks.clone())), Box::new(d)).parse(&src)
+        }
+    });
+    let line = format!(
+        "{which} {} | {} | {}",
+        cps(&src),
+        ft.iter().map(|f| format!("{},{},{}", f.s, f.e, f.k)).collect::<Vec<_>>().join(" "),
+        rec.known_line()
+    );
+    match &out {
+        Ok(ts) => rep.case(&line, &toks_line(ts)),
+        Err(_) => rep.case(&line, "P"),
+    }
+    let name = if which == 'I' { "isolate_english" } else { "collapse_identifiers" };
+    rep.count(&format!("wrapper:{name}:{origin}:{}", if out.is_ok() { "ok" } else { "panic" }));
+    let inp = json!({"kind": "wrap", "which": which.to_string(), "text": text, "extra": extra,
+                     "toks": ft.iter().map(|f| json!([f.s, f.e, f.k])).collect::<Vec<_>>()});
+    let inner_ok = general_failures(&toks, src.len()).is_empty();
+    match &out {
+        Ok(ts) => {
+            if ts.len() != toks.len() {
+                rep.count(&format!("wrapper:{name}:{}", if which == 'I' { "dropped_a_chunk" } else { "collapsed_an_identifier" }));
+                rep.nontrivial(&line);
+            }
+            if which == 'I' && ts.is_empty() && !toks.is_empty() {
+                rep.count("wrapper:isolate_english:dropped_everything");
+            }
+            // C02_isolate_english / C02_collapse_identifiers: the token invariant is preserved
+            if inner_ok {
+                for (c, m) in general_failures(ts, src.len()) {
+                    fail(rep, "wrapper_breaks_invariant", format!("{name} turned a vector with the token invariant into one without ({c}): {m}"), inp.clone());
+                }
+            }
+            // C02_isolate_english_chunks: a sub-sequence
+            if which == 'I' && !is_subsequence(ts, &toks) {
+                fail(rep, "isolate_not_subsequence", "the output of IsolateEnglish is not a sub-sequence of the inner parser's tokens".into(), inp.clone());
+            }
+            // C02_collapse_identifiers_tiling
+            if which == 'C' && tiling_failure(&toks, src.len()).is_none() {
+                if let Some(m) = tiling_failure(ts, src.len()) {
+                    fail(rep, "collapse_breaks_tiling", format!("CollapseIdentifiers turned a tiling into a non-tiling: {m}"), inp.clone());
+                }
+            }
+        }
+        Err(m) => {
+            // the theorems exclude a panic when the inner vector has the token invariant
+            if inner_ok {
+                fail(rep, "wrapper_panic", format!("{name} panicked on a vector with the token invariant: {m}"), inp.clone());
+            }
+        }
+    }
+}
+
+/// J / K: the plain-English parser wrapped, then Document::parse
+fn case_wrapped_doc(rep: &mut Report, which: char, text: &str, extra: &[String], dict: &Arc<FstDictionary>, origin: &str) {
+    rep.eval();
+    let src: Vec<char> = text.chars().collect();
+    let rec = RecDict::new(dict_with(dict, extra));
+    let out = guarded(|| {
+        if which == 'J' {
+            Document::new(text, &IsolateEnglish::new(Box::new(PlainEnglish), rec.clone()), dict.as_ref()).get_tokens().to_vec()
+        } else {
+            let d: Arc<dyn Dictionary> = rec.clone();
+            Document::new(text, &CollapseIdentifiers::new(Box::new(PlainEnglish), Box::new(d)), dict.as_ref()).get_tokens().to_vec()
+        }
+    });
+    let line = format!("{which} {} | {}", cps(&src), rec.known_line());
+    match &out {
+        Ok(ts) => rep.case(&line, &toks_line(ts)),
+        Err(_) => rep.case(&line, "P"),
+    }
+    let name = if which == 'J' { "plain+IsolateEnglish" } else { "plain+CollapseIdentifiers" };
+    rep.count(&format!("wrapped_doc:{name}:{origin}"));
+    let inp = json!({"kind": "wrapdoc", "which": which.to_string(), "text": text, "extra": extra});
+    match &out {
+        Ok(ts) => {
+            // C02_document_plain_ie: gapped (no zero-width token, in bounds, ordered), quotes paired;
+            // C02_document_plain_ci: an exact tiling
+            for (c, m) in general_failures(ts, src.len()) {
+                fail(rep, "wrapped_doc_invariant", format!("[{name}] ({c}) {m}"), inp.clone());
+            }
+            if let Some(t) = ts.iter().find(|t| t.span.start == t.span.end) {
+                fail(rep, "wrapped_doc_invariant", format!("[{name}] zero-width token at {}", t.span.start), inp.clone());
+            }
+            for m in twin_failures(ts) {
+                fail(rep, "wrapped_doc_quotes", format!("[{name}] {m}"), inp.clone());
+            }
+            if which == 'K' {
+                if let Some(m) = tiling_failure(ts, src.len()) {
+                    fail(rep, "wrapped_doc_tiling", format!("[{name}] the tokens do not tile the text: {m}"), inp.clone());
+                }
+            } else if tiling_failure(ts, src.len()).is_some() {
+                rep.count("wrapped_doc:plain+IsolateEnglish:has_a_gap");
+                rep.nontrivial(&line);
+            }
+            if which == 'K' && ts.iter().any(|t| matches!(t.kind, TokenKind::Word(_)) && src[t.span.start..t.span.end.min(src.len())].iter().any(|c| *c == '_' || *c == '-')) {
+                rep.count("wrapped_doc:plain+CollapseIdentifiers:has_collapsed_identifier");
+                rep.nontrivial(&line);
+            }
+        }
+        Err(m) => fail(rep, "wrapped_doc_panic", format!("[{name}] panicked: {m}"), inp.clone()),
+    }
+}
+
+const IE_TEXTS: &[&str] = &[
+    "a. zz q..", "This is good. qzx wvk jhg fds pqr ....", "See the e.g. accomodate zorgle blarg p.m. today",
+    "En la mañana, como a dish de los huevos, un poquito of tocino, y a lot of leche.",
+    "This is a test: el gato come pescado y bebe leche, then we go home.", "The end. xq zv kk pp. The start.",
+    "\"qzx wvk jhg fds\" she said, and left.", "zz zz zz zz", "zz zz zz zz zz zz zz zz zz", "the the the the the the the the the",
+    "a b c d e f g h, i j", "One, two, three: four! Five? six.", "x@y.z qq ww ee rr tt.", "$ % ^ & * ( ) the cat sat.", "the cat, , , , sat on the mat",
+    "\n\nqzx wvk jhg\n\nThis is fine.\n\n", "1st 2nd qzx 3rd wvk.", "",
+];
+const CI_TEXTS: &[&str] = &[
+    "a_b c-d", "kebab-case", "snake_case_word is here", "This is a separated_identifier, wow!", "well-known fact", "x_-y", "_a", "a_", "a__b", "a_b-c_d", "foo_bar.baz",
+    "1_a", "a_1", "a-b-c-d-e", "a_b a_b a_b", "a - b", "a_ b", "don't_do-it", "e.g._x", "U.S._A", "a_b_", "-a_b", "co-op re-use", "x_y_z-w q_r", "",
+];
+const CI_WORDS: &[&str] = &["a_b", "kebab-case", "snake_case", "snake_case_word", "separated_identifier", "well-known", "a_b-c_d", "b-c", "c_d", "foo_bar", "a-b-c-d-e", "a-b", "c-d", "x_y_z-w", "x_y", "q_r", "co-op", "a__b", "do-it"];
+
+/// maximal runs word(sep word)+ of a text, as strings (candidates for the identifier dictionary)
+fn identifier_runs(text: &str) -> Vec<String> {
+    let cs: Vec<char> = text.chars().collect();
+    let mut out = vec![];
+    let mut i = 0;
+    while i < cs.len() {
+        if cs[i].is_alphabetic() {
+            let mut j = i;
+            let mut seps = 0;
+            while j < cs.len() && (cs[j].is_alphabetic() || ((cs[j] == '_' || cs[j] == '-') && j + 1 < cs.len() && cs[j + 1].is_alphabetic())) {
+                if cs[j] == '_' || cs[j] == '-' {
+                    seps += 1;
+                }
+                j += 1;
+            }
+            if seps > 0 {
+                out.push(cs[i..j].iter().collect());
+            }
+            i = j.max(i + 1);
+        } else {
+            i += 1;
+        }
+    }
+    out
+}
+
+fn wrapper_text(r: &mut Rng, which: char) -> String {
+    let gib = ["qzx", "wvk", "jhg", "fds", "pqr", "zorgle", "blarg", "xq", "zv", "el", "gato", "come", "leche", "huevos"];
+    let n = r.range(1, 8);
+    let mut out = String::new();
+    for i in 0..n {
+        if i > 0 {
+            out.push_str(r.s(&[" ", " ", " ", ", ", ". ", ": ", "\n\n", "! ", "? ", " \"", "\" ", "...", ".", " - ", "  "]));
+        }
+        match r.below(10) {
+            0..=3 => out.push_str(r.s(gen::COMMON)),
+            4..=5 => out.push_str(r.s(&gib)),
+            6 => out.push_str(r.s(C02_ITEMS)),
+            _ => {
+                if which == 'I' || which == 'J' {
+                    out.push_str(r.s(&gib))
+                } else {
+                    let k = r.range(2, 4);
+                    for m in 0..k {
+                        if m > 0 {
+                            out.push_str(r.s(&["_", "-", "_", "-", "__", "_-"]));
+                        }
+                        out.push_str(r.s(&["a", "b", "foo", "bar", "case", "kebab", "snake", "x", "well", "known"]));
+                    }
+                }
+            }
+        }
+    }
+    out
+}
+
 // ---------------------------------------------------------------- generators
 const C02_ITEMS: &[&str] = &[
     "e.g.", "i.e.", "N.S.A.", "U.S.", "U.S.A", "a.", "I.", "A.B.", "x.y.z", "a.b", "etc.", "vs.", "et al.", "Et  Al.", "ET\tAL.", "et\nal.", "et al", "etc",
@@ -745,6 +1045,23 @@ pub fn replay_input(rep: &mut Report, v: &Value, dict: &Arc<FstDictionary>) {
                 case_toks(rep, t, &ft, dict, "corpus");
             }
         }
+        "wrap" | "wrapdoc" => {
+            let which = v["which"].as_str().and_then(|w| w.chars().next()).unwrap_or('I');
+            let extra: Vec<String> = v["extra"].as_array().map(|a| a.iter().filter_map(|x| x.as_str().map(|s| s.to_string())).collect()).unwrap_or_default();
+            let Some(t) = v["text"].as_str() else { return };
+            if v["kind"] == "wrapdoc" {
+                case_wrapped_doc(rep, which, t, &extra, dict, "corpus");
+            } else if let Some(a) = v["toks"].as_array() {
+                let ft: Vec<FTok> = a
+                    .iter()
+                    .filter_map(|x| Some(FTok { s: x[0].as_u64()? as usize, e: x[1].as_u64()? as usize, k: x[2].as_str()?.to_string() }))
+                    .collect();
+                case_wrapper(rep, which, t, &ft, &extra, dict, "corpus");
+            } else {
+                let src: Vec<char> = t.chars().collect();
+                case_wrapper(rep, which, t, &ftoks_of_plain(&src), &extra, dict, "corpus");
+            }
+        }
         "law" => {}
         _ => {}
     }
@@ -752,7 +1069,7 @@ pub fn replay_input(rep: &mut Report, v: &Value, dict: &Arc<FstDictionary>) {
 
 pub fn run(a: &Args, corpus: &[Value]) {
     let mut rep = Report::new(&a.out);
-    rep.rule = "plain texts: corpus, construct-rich generator (initialisms/contractions/ellipses/suffixes/decades/hex/floats/URLs/e-mails/hostnames/regexish/quotes, multi-byte, tabs, CR-LF, blank lines; constructs forced to the very end), every prefix of each text, shared document generator, malformed stream; token vectors (T): plain tokens perturbed (per-character Space/Newline runs, zero-width inserts, drops, duplicates, shifted/inverted/out-of-bounds spans, kind changes) and random tilings with arbitrary kinds; front-ends: every front-end of hv::frontends (+ci, +ie) on embedded documents incl. tabs after container markers. non-trivial = distinct text whose document has fewer tokens than PlainEnglish.parse produced (some pass condensed), distinct token vector changed by the passes, distinct non-empty front-end document".into();
+    rep.rule = "plain texts: corpus, construct-rich generator (initialisms/contractions/ellipses/suffixes/decades/hex/floats/URLs/e-mails/hostnames/regexish/quotes, multi-byte, tabs, CR-LF, blank lines; constructs forced to the very end), every prefix of each text, shared document generator, malformed stream; token vectors (T): plain tokens perturbed (per-character Space/Newline runs, zero-width inserts, drops, duplicates, shifted/inverted/out-of-bounds spans, kind changes) and random tilings with arbitrary kinds; wrapper parsers (I, C): IsolateEnglish / CollapseIdentifiers over given token vectors (plain vectors of chunk- and identifier-rich texts, perturbed vectors, random tilings; curated dictionary + random identifiers of the text), wrapped plain documents (J, K); front-ends: every front-end of hv::frontends (+ci, +ie) on embedded documents incl. tabs after container markers. non-trivial = distinct text whose document has fewer tokens than PlainEnglish.parse produced (some pass condensed), distinct token vector changed by the passes, distinct wrapper case that dropped a chunk / collapsed an identifier, distinct wrapped document with a gap / a collapsed identifier, distinct non-empty front-end document".into();
     let dict = FstDictionary::curated();
     dump_unicode(&mut rep, a.thorough());
     for c in corpus {
@@ -844,6 +1161,49 @@ pub fn run(a: &Args, corpus: &[Value]) {
         } else {
             let v = random_tiling(&mut r, &src);
             case_toks(&mut rep, &t, &v, &dict, "random_tiling");
+        }
+    }
+    // ---- the wrapper parsers: given token vectors (I, C) and wrapped plain documents (J, K)
+    let all_ci: Vec<String> = CI_WORDS.iter().map(|s| s.to_string()).collect();
+    for t in IE_TEXTS.iter().chain(CI_TEXTS.iter()).chain(TOKEN_TEXTS.iter()) {
+        let src: Vec<char> = t.chars().collect();
+        let v = ftoks_of_plain(&src);
+        case_wrapper(&mut rep, 'I', t, &v, &[], &dict, "plain");
+        case_wrapper(&mut rep, 'C', t, &v, &all_ci, &dict, "plain");
+        case_wrapper(&mut rep, 'C', t, &v, &[], &dict, "plain_no_identifiers");
+        case_wrapped_doc(&mut rep, 'J', t, &[], &dict, "fixed");
+        case_wrapped_doc(&mut rep, 'K', t, &all_ci, &dict, "fixed");
+    }
+    for _ in 0..a.scale(700, 12000) {
+        let which = if r.chance(1, 2) { 'I' } else { 'C' };
+        let t = match r.below(6) {
+            0 => r.s(if which == 'I' { IE_TEXTS } else { CI_TEXTS }).to_string(),
+            1 => rich_text(&mut r),
+            _ => wrapper_text(&mut r, which),
+        };
+        let src: Vec<char> = t.chars().collect();
+        if src.len() > 120 {
+            continue;
+        }
+        let mut extra: Vec<String> = vec![];
+        if which == 'C' {
+            for id in identifier_runs(&t) {
+                if r.chance(1, 2) {
+                    extra.push(id);
+                }
+            }
+            if r.chance(1, 3) {
+                extra.extend(all_ci.iter().cloned());
+            }
+        }
+        let (v, origin) = match r.below(5) {
+            0 if src.len() <= 60 => (perturbed(&mut r, &src), "perturbed"),
+            1 if src.len() <= 60 => (random_tiling(&mut r, &src), "random_tiling"),
+            _ => (ftoks_of_plain(&src), "plain"),
+        };
+        case_wrapper(&mut rep, which, &t, &v, &extra, &dict, origin);
+        if r.chance(1, 3) {
+            case_wrapped_doc(&mut rep, if which == 'I' { 'J' } else { 'K' }, &t, &extra, &dict, "generated");
         }
     }
     // ---- every front-end: the four invariants (search only)
